@@ -98,13 +98,12 @@ theorem serStr_token {v : List Char} {s : St} (h1 : s.pendingStrStyle = none) (h
 /-- the tokens of the safe class: a safe string is written as itself; under `quote_all` string values
 (hence unit variants) and the names of variants with data are single-quoted, string keys stay plain
 (`KeyScalarSink` does not look at `quote_all`); under `tagged_enums` a unit variant is `!!Enum variant` -/
-def safeToks (o : Opts) : Toks where
-  str := fun s => if o.quoteAll then singleQuoted s else s
-  key := fun s => s
-  name := fun s => if o.quoteAll then singleQuoted s else s
-  unit := fun e n =>
-    if o.taggedEnums then '!' :: '!' :: e ++ ' ' :: (if o.quoteAll then singleQuoted n else n)
-    else if o.quoteAll then singleQuoted n else n
+def safeToks (o : Opts) : Toks :=
+  Toks.ofStr (fun s => if o.quoteAll then singleQuoted s else s) (fun s => s)
+    (fun s => if o.quoteAll then singleQuoted s else s)
+    (fun e n =>
+      if o.taggedEnums then '!' :: '!' :: e ++ ' ' :: (if o.quoteAll then singleQuoted n else n)
+      else if o.quoteAll then singleQuoted n else n)
 
 /-- `serialize_unit_variant` under `tagged_enums`: the tag, a blank and the variant name by the value rule,
 as one token -/
@@ -139,7 +138,7 @@ theorem needsDoubleQuotes_safe {s : List Char} (h : isSafeStr s = true) : needsD
 theorem strTok_safe (hf : SafeContract f) {v : List Char} (hs : isSafeStr v = true) : strTok o f v = (safeToks o).str v := by
   have hp := isSafeStr_not_punct hs
   simp only [strTok, hp, Bool.false_eq_true, if_false, plainOrQuotedValue, needsDoubleQuotes_safe hs, safeToks,
-    hf.value v o.yaml12 false hs, hf.shape v hs, Bool.not_false, Bool.and_self, if_true]
+    hf.value v o.yaml12 false hs, hf.shape v hs, Bool.not_false, Bool.and_self, if_true, Toks.ofStr_str]
 
 theorem autoBlock_safe {v : List Char} (hs : isSafeStr v = true) (hl : v.length ≤ o.foldedWrapCol) : autoBlock o f v = false := by
   have hnl := isSafeStr_no_nl hs
@@ -148,11 +147,12 @@ theorem autoBlock_safe {v : List Char} (hs : isSafeStr v = true) (hl : v.length 
   simp [autoBlock, hnm, hlen]
 
 /-- the write side of the safe-leaf contract -/
-theorem safe_write (hf : SafeContract f) : WriteContract o f (safePred o) (safeToks o) where
-  str := fun s hs st h1 h2 => by
+theorem safe_write (ho : FragOpts o) (hf : SafeContract f) : WriteContract o f (safePred o) (safeToks o) :=
+  WriteContract.ofTok ho (Toks.ofStr_isTok _ _ _ _)
+  (fun s hs st h1 h2 => by
     simp only [safePred, Bool.and_eq_true, decide_eq_true_eq] at hs
-    rw [serStr_token h1 h2 (autoBlock_safe hs.1 hs.2), strTok_safe hf hs.1]
-  unit := fun e n hs st h1 h2 => by
+    rw [serStr_token h1 h2 (autoBlock_safe hs.1 hs.2), strTok_safe hf hs.1])
+  (fun e n hs st h1 h2 => by
     simp only [safePred, Bool.and_eq_true, decide_eq_true_eq] at hs
     cases ht : o.taggedEnums
     · rw [ser]
@@ -163,13 +163,13 @@ theorem safe_write (hf : SafeContract f) : WriteContract o f (safePred o) (safeT
       have hp := isSafeStr_not_punct hs.1.1
       have := strTok_safe (o := o) hf hs.1.1
       simp only [strTok, hp, Bool.false_eq_true, if_false] at this
-      simp [safeToks, ht, this]
-  key := fun s hs => by
+      simp [safeToks, ht, this])
+  (fun s hs => by
     simp only [safePred] at hs
-    simp [keyStrText, safeToks, hf.plain s hs, hf.value s o.yaml12 true hs, hf.shape s hs]
-  name := fun n hs => by
+    simp [keyStrText, safeToks, hf.plain s hs, hf.value s o.yaml12 true hs, hf.shape s hs])
+  (fun n hs => by
     simp only [safePred] at hs
-    simp [plainOrQuoted, safeToks, needsDoubleQuotes_safe hs, hf.plain n hs, hf.value n o.yaml12 true hs, hf.shape n hs]
+    simp [plainOrQuoted, safeToks, needsDoubleQuotes_safe hs, hf.plain n hs, hf.value n o.yaml12 true hs, hf.shape n hs])
 
 /-- a safe string as a plain scalar token -/
 theorem safe_scalarTok {s : List Char} (h : isSafeStr s = true) : ScalarTok s (.str s) := by
@@ -204,13 +204,14 @@ theorem safe_coreTok {s : List Char} (h : isSafeStr s = true) : CoreTok s (.str 
   rintro rfl; exact absurd hc (by decide)
 
 /-- the read side of the safe-leaf contract -/
-theorem safe_read (o : Opts) : ReadContract (safePred o) (safeToks o) where
-  str := fun s hs => by
+theorem safe_read (o : Opts) (k : Nat) : ReadContract (safePred o) (safeToks o) k :=
+  ReadContract.ofTok (Toks.ofStr_isTok _ _ _ _)
+  (fun s hs => by
     simp only [safePred, Bool.and_eq_true] at hs
     cases hq : o.quoteAll
     · simpa [safeToks, hq] using safe_scalarTok hs.1
-    · simpa [safeToks, hq] using singleQuoted_scalarTok (needsDoubleQuotes_safe hs.1)
-  unit := fun e n hs => by
+    · simpa [safeToks, hq] using singleQuoted_scalarTok (needsDoubleQuotes_safe hs.1))
+  (fun e n hs => by
     simp only [safePred, Bool.and_eq_true] at hs
     cases ht : o.taggedEnums
     · cases hq : o.quoteAll
@@ -219,14 +220,15 @@ theorem safe_read (o : Opts) : ReadContract (safePred o) (safeToks o) where
     · have he : tagNameOk e = true := by simpa [ht] using hs.2
       cases hq : o.quoteAll
       · simpa [safeToks, hq, ht] using tagged_scalarTok he (safe_coreTok hs.1.1)
-      · simpa [safeToks, hq, ht] using tagged_scalarTok he (singleQuoted_coreTok (needsDoubleQuotes_safe hs.1.1))
-  key := fun s hs => by
+      · simpa [safeToks, hq, ht] using tagged_scalarTok he (singleQuoted_coreTok (needsDoubleQuotes_safe hs.1.1)))
+  (fun s hs => by
     simp only [safePred] at hs
-    simpa [safeToks] using safe_keyTok hs
-  name := fun n hs => by
+    simpa [safeToks] using safe_keyTok hs)
+  (fun n hs => by
     simp only [safePred] at hs
     cases hq : o.quoteAll
     · simpa [safeToks, hq] using safe_keyTok hs
-    · simpa [safeToks, hq] using singleQuoted_keyTok (needsDoubleQuotes_safe hs)
+    · simpa [safeToks, hq] using singleQuoted_keyTok (needsDoubleQuotes_safe hs))
+  k
 
 end SaphyrVerif.Emit
